@@ -159,8 +159,8 @@ impl Row {
         });
         let mut prev_attrs = prev_attrs.unwrap_or_default();
 
-        let first_cell = &self.cells[usize::from(start)];
-        if wrapping && first_cell == &default_cell {
+        let first_cell = self.cells.get(usize::from(start));
+        if wrapping && first_cell == Some(&default_cell) {
             let default_attrs = default_cell.attrs();
             if &prev_attrs != default_attrs {
                 default_attrs.write_escape_code_diff(contents, &prev_attrs);
@@ -295,8 +295,13 @@ impl Row {
     ) -> (crate::grid::Pos, crate::attrs::Attrs) {
         let mut prev_was_wide = false;
 
-        let first_cell = &self.cells[usize::from(start)];
-        let prev_first_cell = &prev.cells[usize::from(start)];
+        let (Some(first_cell), Some(prev_first_cell)) = (
+            self.cells.get(usize::from(start)),
+            prev.cells.get(usize::from(start)),
+        ) else {
+            // the requested window lies entirely outside of the row
+            return (prev_pos, prev_attrs);
+        };
         if wrapping
             && !prev_wrapping
             && first_cell == prev_first_cell
